@@ -1,8 +1,8 @@
 #!/usr/bin/env python3
 """Prepare a round of sub-agent work: scratch worktrees of /repo and one prompt file per property.
 
-usage: mk_prompts.py seed    <base dir> <flavour: unusual|coordinated|disguised|feature|mixed> [Cxx ...]
-       mk_prompts.py neutral <base dir> <flavour: small|medium|large> [Cxx ...]
+usage: mk_prompts.py seed    <base dir> <flavour: unusual|coordinated|disguised|feature|subtle|mixed> [Cxx ...]
+       mk_prompts.py neutral <base dir> <flavour: small|medium|large|modern> [Cxx ...]
 
 Each sub-agent gets ONLY the text of one property (from properties.jsonl) and its own scratch git worktree
 <base>/<Cxx> of /repo; nothing from /verif. Its deliverables land in <base>/<Cxx>/_out/ and are ingested with
@@ -50,6 +50,8 @@ FLAVOURS = {
     "feature": '''Flavour for this property: FEATURE or ROBUSTNESS work gone wrong. Change A should ADD something a maintainer might really be asked for (support for one more algorithm / key size / payload or attribute type / option / error message detail / convenience accessor / performance shortcut / defensive limit), implemented so that existing behaviour INSIDE the property's quantifier is damaged in some corner: an existing case now takes the new path, a shared table or helper was generalised wrongly, a limit was chosen too small or too large, a default changed. Change B should touch code that is NOT named in the anchors but that the anchored code depends on (a helper, a type's method, a constant, a table, an init function, a sibling payload's code that is shared) and break the property from there. The diff may be up to ~60 lines.''',
 }
 
+FLAVOURS["subtle"] = '''Flavour for this property: SMALL and SEMANTICALLY SUBTLE. Each change is 1-6 changed lines and hinges on a language or library subtlety rather than on an obviously wrong check: a comparison operator or its operand order; an integer type, width, sign or conversion placed one step too early or too late; slice length versus capacity, a three-index slice dropped or added, append onto a slice that shares its backing array, a buffer or hash object reused across calls or iterations; a shadowed variable (:= instead of =) so that an outer result or error is not the one checked; an early return or continue that skips a later state update; a defer or Unlock moved; a loop bound or step; copy() with a destination that is too short; two statements swapped that have a hidden dependency; a switch default or fallthrough; nil versus empty slice or map; a value receiver where a pointer receiver was needed (or a range variable copied); a map that is now iterated where order matters. Do NOT touch the line that most obviously implements the property.'''
+
 NEUTRAL_SMALL = '''You are helping to evaluate a verification effort by playing the role of a careful maintainer who REFACTORS code without changing behaviour. ''' + HEAD + '''
 Your task: produce FOUR independent, realistic, BEHAVIOUR-PRESERVING changes (call them a, b, c, d) to the library's non-test source inside the code this property is anchored in. Each change on its own must
   1. leave the property above TRUE for every input / configuration / history in its quantifier (be strict about this: no change of any observable result, error/no-error outcome, or state for in-domain inputs; and no new crash on out-of-domain input either),
@@ -74,6 +76,12 @@ NEUTRAL_MEDIUM = NEUTRAL_SMALL.replace(
     "Your task: produce THREE independent, realistic, BEHAVIOUR-PRESERVING changes (call them g, h, i)").replace(
     "of moderate size (5-40 changed lines), and the four changes must be of DIFFERENT kinds, chosen from e.g.:",
     "of medium size (20-70 changed lines), each touching a DIFFERENT function or file of the anchored code than the other two (prefer code that is less obviously central: accessors, constructors, String methods, sibling payloads, registries, error paths), and of DIFFERENT kinds, each combining two or three of e.g.:")
+
+NEUTRAL_MODERN = NEUTRAL_SMALL.replace(
+    "Your task: produce FOUR independent, realistic, BEHAVIOUR-PRESERVING changes (call them a, b, c, d)",
+    "Your task: produce THREE independent, realistic, BEHAVIOUR-PRESERVING changes (call them j, k, l)").replace(
+    "of moderate size (5-40 changed lines), and the four changes must be of DIFFERENT kinds, chosen from e.g.:",
+    "of medium size (15-60 changed lines), each in a DIFFERENT function or file of the anchored code (at least one of them in code the anchors reach only indirectly: a callee, a constructor, an accessor, an init function, a registry), written the way a maintainer MODERNISING or HARDENING the code would: e.g. named result parameters with a single exit; a small closure or local helper function replacing repeated statements; a generic helper (Go 1.21) for repeated slice / map handling; bytes.Buffer / binary.Write replaced by explicit appends (or the other way round); errors wrapped differently but with the same nil / non-nil outcome; defer used for a cleanup that was written out on each path; a struct literal instead of field-by-field assignment (or vice versa); a table or map of constants replacing a switch (or vice versa); guard clauses instead of nested ifs; an extra defensive check that can never fire for valid inputs and returns an error otherwise; loop fusion or fission; an explicit length or capacity pre-computation. Besides these you may still use:")
 
 NEUTRAL_LARGE = NEUTRAL_SMALL.replace(
     "Your task: produce FOUR independent, realistic, BEHAVIOUR-PRESERVING changes (call them a, b, c, d)",
@@ -101,8 +109,8 @@ def main():
                 fl = "coordinated" if pid in coordset else "disguised"
             txt = SEED.replace("@FLAVOUR@", FLAVOURS[fl])
         else:
-            txt = {"small": NEUTRAL_SMALL, "medium": NEUTRAL_MEDIUM, "large": NEUTRAL_LARGE}[flavour]
-            txt = txt.replace("@DIRS@", {"small": "a, b, c, d", "medium": "g, h, i", "large": "e, f"}[flavour])
+            txt = {"small": NEUTRAL_SMALL, "medium": NEUTRAL_MEDIUM, "large": NEUTRAL_LARGE, "modern": NEUTRAL_MODERN}[flavour]
+            txt = txt.replace("@DIRS@", {"small": "a, b, c, d", "medium": "g, h, i", "large": "e, f", "modern": "j, k, l"}[flavour])
         txt = txt.replace("@BASE@", base).replace("@ID@", pid).replace("@PROP@", json.dumps(props[pid], indent=1))
         open(os.path.join(base, pid + ".prompt.txt"), "w").write(txt)
     print("prepared", len(ids), "worktrees and prompts under", base)
